@@ -11,6 +11,7 @@ Decided (DESIGN.md C32, E.3):
                     jws_verify succeeded and the expiry (when present) was tested against the current time.
  K1-carriers        verified-token carriers (Token::*, PreValidatedTokenStatus::Valid, LdapSession::UserAuthToken/ApiToken) are built only from
                     a verified parse; process_*_to_identity is called only with such a carrier.
+ K5-validity-bounds  every call of Account::check_within_valid_time takes its lower bound from valid_from and its upper bound from expire.
 Not decided: the signature scheme and key revocation (C34), clock handling, replication delay semantics of the grace window.
 """
 import re
